@@ -58,7 +58,7 @@ def run(ctx):
         ctx.tlc('WriteSched', 'MC_C20_%s_%s.cfg' % (k, t), label='exhaustive %s' % k, timeout=2400)
     tdir = os.path.join(ctx.scratch, 'traces')
     os.makedirs(tdir)
-    hist, steps = (60, 45) if t == 'quick' else (600, 60)
+    hist, steps = (60, 45) if t == 'quick' else (2400, 60)
     r = vf.run_overlay_driver(ctx, 'pkg/http2', ['common/graph_test.go', 'http2/c20_test.go'], '^TestVFC20$',
                               env={'VF_TRACEDIR': tdir, 'VF_HISTORIES': str(hist), 'VF_STEPS': str(steps)}, timeout=900)
     runs = r['extra']['runs']
